@@ -167,6 +167,8 @@ def _run_once(spec, random_state=None):
     with tempfile.TemporaryDirectory(prefix="vp_c07_%d_" % k) as d:
         ev = Evaluator.create(run, method="serial", method_kwargs={"num_workers": 1})
         kw = dict(spec.get("kwargs", {}))
+        if (spec.get("ambient") or {}).get("verbose"):
+            kw["verbose"] = 1      # progress bar on stderr: must not influence what is proposed
         cls = classes[spec["search"]]
         g0 = (np.random.get_state()[1].tobytes(), np.random.get_state()[2], random.getstate())
         seed = int(spec["seed"])
@@ -258,8 +260,23 @@ def _run_once(spec, random_state=None):
     return out
 
 
+def apply_ambient(amb):
+    """Ambient state of the process that a library may read - none of it is part of the property's inputs (environment variables, the
+    interpreter flags and the working directory are set by the parent when it starts this process)."""
+    import logging
+
+    if amb.get("log"):
+        # an application that configured logging: root logger at DEBUG with a handler (written to the null device)
+        logging.basicConfig(level=getattr(logging, amb["log"]), stream=open(os.devnull, "w"), force=True)
+    if amb.get("warnings"):
+        warnings.resetwarnings()
+        warnings.simplefilter(amb["warnings"])
+
+
 def main():
     specs = json.loads(sys.argv[1])
+    amb = (specs[0] if isinstance(specs, list) else specs).get("ambient") or {}
+    apply_ambient(amb)
     outs = []
     for spec in specs if isinstance(specs, list) else [specs]:
         try:
